@@ -34,6 +34,7 @@ CONSTANTS
   Gaps = {}
   Bugs = {}
   Target = "@TARGET@"
+  DeathOK = @DEATHOK@
 VIEW view
 INVARIANTS WitnessInv
 CHECK_DEADLOCK FALSE
